@@ -914,10 +914,57 @@ def route_shared_context(ctx, n, root):
             ctx.fail("building a config rewrote the caller's context dict (placeholders substituted in place)", case, {'after': str(cdict)[:300]})
 
 
+def route_shared_file(ctx, n, root):
+    """ONE config file (JSON or YAML) with placeholders at several depths loaded by two Config objects in one process with DIFFERENT
+    global_vars (another environment, the next member of a parameter sweep): each config sees its own substitution at every depth, the
+    first config keeps its values while the second is built, and the file is not changed"""
+    import json
+    import yaml
+    from taskchain import Config
+    for i in range(n):
+        rng = ctx.rng('shared-file', i)
+        leaf = rng.choice(['{V}/a', 'x{V}', '{V}', '{V}{W}', 'plain', '{UNDEF}/{V}'])
+        data = {'p1': leaf, 'nested': {'k': [leaf, {'deep': leaf}], 'n': 1}, 'lst': [leaf, [leaf]]}
+        ext = rng.choice(['json', 'yaml'])
+        f = root / f'sf{i}' / f'c.{ext}'
+        f.parent.mkdir(parents=True, exist_ok=True)
+        f.write_text(json.dumps(data) if ext == 'json' else yaml.safe_dump(data))
+        before = f.read_bytes()
+        gvs = [{'V': 'v1', 'W': 'w1'}, {'V': 'v2', 'W': 'w2'}]
+        if rng.random() < 0.3:
+            gvs.append({'V': 'v1', 'W': 'w1'})
+        case = {'route': 'shared config file', 'leaf': leaf, 'format': ext, 'configs': len(gvs)}
+        ctx.case(case); ctx.count('shared-config-file')
+        try:
+            cfgs = [Config(root / f'sf{i}' / 'data', f, global_vars=gv) for gv in gvs]
+        except Exception as e:      # noqa
+            ctx.fail('a second config of the same file could not be built', case, f'{type(e).__name__}: {e}'[:200]); continue
+
+        def texts(v):
+            if isinstance(v, str):
+                return str.__str__(v)
+            if isinstance(v, list):
+                return [texts(x) for x in v]
+            if isinstance(v, dict):
+                return {k: texts(x) for k, x in v.items()}
+            return v
+        for gv, cfg in zip(gvs, cfgs):
+            e_, _ = ref_subst(leaf, gv.get)
+            got = {k: texts(cfg.data.get(k)) for k in ('p1', 'nested', 'lst')}
+            exp = {'p1': e_, 'nested': {'k': [e_, {'deep': e_}], 'n': 1}, 'lst': [e_, [e_]]}
+            if got != exp:
+                ctx.fail('a config built from a file that another config had loaded sees the values substituted for that other config', case,
+                         {'global_vars': gv, 'got': got, 'expected': exp})
+                break
+        if f.read_bytes() != before:
+            ctx.fail('loading a config file changed the file', case, {})
+
+
 def run(ctx):
     quiet()
     root = ctx.tmpdir()
     route_shared_context(ctx, ctx.n(150, 1200), root)
+    route_shared_file(ctx, ctx.n(60, 600), root)
     route_direct(ctx, ctx.n(5000, 40000))
     route_config(ctx, ctx.n(1500, 12000), root / 'cfg')
     route_chain(ctx, ctx.n(120, 1000), root)
